@@ -219,6 +219,28 @@ def c09_bc(ctx, table):
     ctx.check_eq('bc_of_the_current_shot_on_a_reused_solver', calc.drag_by_mach(M) * bc2, cd * F(2.08551e-04), rel=1e-12, abs=1e-15, info={'how': 'BC changed in place'})
 
 
+@harness('C09.sequence', 'C09', functions=FUNCS, must_reach=['check:each_lookup_is_a_function_of_its_mach_only', 'rising', 'falling'],
+         bounds='one solver object, a 6-node custom table, THREE successive drag_by_mach look-ups at symbolic Mach numbers M1, M2, M1 in [0,5] in any order '
+                '(rising and falling; every pair of table intervals): each equals the stateless table look-up at its own Mach number')
+def c09_sequence(ctx):
+    p, tc = pybc(), _tc()
+    from py_ballisticcalc.interface_config import create_interface_config
+    table = [{'Mach': m, 'CD': c} for m, c in ((0.0, 0.2), (0.5, 0.25), (0.9, 0.4), (1.2, 0.5), (2.0, 0.35), (4.0, 0.2))]
+    dm = p.DragModel(0.3, table)
+    shot = p.Shot(p.Weapon(), p.Ammo(dm, p.Velocity.FPS(2700)), atmo=_atmo(p))
+    calc = tc.TrajectoryCalc(create_interface_config(None))
+    calc._init_trajectory(shot)
+    M1 = ctx.real('mach1', 0, 5)
+    M2 = ctx.real('mach2', 0, 5)
+    ctx.reach('rising' if M2 > M1 else 'falling')
+    machs = tc._get_only_mach_data(calc.table_data)
+    curve = tc.calculate_curve(calc.table_data)
+    for i, M in enumerate((M1, M2, M1)):
+        got = calc.drag_by_mach(M)
+        want = tc._calculate_by_curve_and_mach_list(machs, curve, M) * 2.08551e-04 / 0.3
+        ctx.check_eq('each_lookup_is_a_function_of_its_mach_only', got, want, rel=1e-12, abs=1e-15, info={'call': i})
+
+
 _ATMO = []
 
 
